@@ -104,6 +104,8 @@ def roundtrip(cls, obj, base_kwargs, kv, kwargs=None, wire_ok=()):
     reencode-differs, reencode-fails."""
     try:
         b = shapes.encode(obj, kv)
+    except shapes.Runaway:
+        raise
     except Exception as e:   # noqa
         return 'refused', '%s: %s' % (type(e).__name__, str(e)[:100]), None
     try:
@@ -113,6 +115,8 @@ def roundtrip(cls, obj, base_kwargs, kv, kwargs=None, wire_ok=()):
         return 'decode-fails', '%s: %s' % (type(e).__name__, str(e)[:120]), b
     try:
         b2 = shapes.encode(r, kv)
+    except shapes.Runaway:
+        raise
     except Exception as e:   # noqa
         return 'reencode-fails', '%s: %s' % (type(e).__name__, str(e)[:100]), b
     if b2 != b:
@@ -613,10 +617,18 @@ def _worker(task):
     part = Part()
     import logging
     logging.disable(logging.CRITICAL)
+    shapes.cap_streams()
     try:
         if kind == 'classes':
             for name in arg:
-                check_class(name, part, sweep)
+                try:
+                    check_class(name, part, sweep)
+                except shapes.Runaway as e:
+                    part.violation("%s|runaway-encoding" % name,
+                                   "%s: %s although every menu value is small - the encoding keeps "
+                                   "growing from one value to the next (state shared between "
+                                   "values); rest of this class skipped" % (name, e),
+                                   {'class': name, 'label': ['runaway']})
         elif kind == 'primitives':
             check_primitives(part)
             check_hand_attributes(part)
